@@ -38,6 +38,7 @@ type churnCfg struct {
 	Lag       int      `json:"lag"`
 	MaxDepth  int      `json:"maxDepth"` // 0 = until fixpoint
 	Workers   int      `json:"workers"`  // >1: the depth-bounded search is split by depth-1 state over that many work items
+	Cost      int      `json:"-"`        // rough seconds per work item, only used to balance the workers
 }
 
 const (
@@ -71,6 +72,9 @@ type sys struct {
 	cancel context.CancelFunc
 	queues [numQ][]*discovery.Event
 	recs   []handlerRec
+	// ghost: nodes whose last DELIVERED node event is a start ("alive" in the sense of the statement: after any
+	// sequence of node start and failure events). Part of Canon; equals the manager's live set unless that is wrong.
+	evLive map[int]bool
 	hist   []string
 	rep    *vevid.Report
 }
@@ -85,7 +89,7 @@ func nodeVal(id int) []byte {
 }
 
 func newSys(cfg *churnCfg, rep *vevid.Report) *sys {
-	s := &sys{cfg: cfg, repo: newMemRepo(), rep: rep}
+	s := &sys{cfg: cfg, repo: newMemRepo(), rep: rep, evLive: map[int]bool{}}
 	ctx, cancel := context.WithCancel(context.Background())
 	s.cancel = cancel
 	// real constructor. Its consumeEvent goroutine stays parked on the (never used) channel: events are fed
@@ -135,6 +139,15 @@ func (s *sys) onChange(del bool, key string, val []byte) {
 }
 
 // ---- observation ----------------------------------------------------------------------------------------
+
+func (s *sys) evLiveList() []int {
+	var out []int
+	for id := range s.evLive {
+		out = append(out, id)
+	}
+	sort.Ints(out)
+	return out
+}
 
 func (s *sys) repoLive() []int {
 	var out []int
@@ -212,7 +225,7 @@ func (s *sys) Canon() string {
 		live = append(live, int(id))
 	}
 	sort.Ints(live)
-	fmt.Fprintf(&sb, "L%v R%v", live, s.repoLive())
+	fmt.Fprintf(&sb, "L%v E%v R%v", live, s.evLiveList(), s.repoLive())
 	dbs := map[string]struct{}{}
 	for _, d := range s.cfg.DBs {
 		dbs[d] = struct{}{}
@@ -401,6 +414,18 @@ func (s *sys) deliver(e *discovery.Event, a, b int) {
 			}
 		}
 	}
+	switch e.Type {
+	case discovery.NodeStartup, discovery.NodeFailure:
+		id, err := strconv.Atoi(dbOfKey(e.Key))
+		if err != nil {
+			vevid.Fatal("node event with key %q", e.Key)
+		}
+		if e.Type == discovery.NodeStartup {
+			s.evLive[id] = true
+		} else {
+			delete(s.evLive, id)
+		}
+	}
 	if e.Type == discovery.DatabaseConfigChanged {
 		// the only handler that reaches shard_assign.go. (Seeding costs ~10us; should another handler ever draw from
 		// math/rand, its outcome would differ between replays and the engine reports the nondeterministic replay.)
@@ -523,6 +548,11 @@ func (s *sys) Invariant(_ string, ev string) []vxstate.Finding {
 		live = append(live, int(id))
 	}
 	sort.Ints(live)
+
+	// (0) the manager's live set is the set of nodes whose last delivered event is a start
+	if ev := s.evLiveList(); !sameList(ev, live) {
+		add("live-set-follows-node-events", "StorageState.LiveNodes", fmt.Sprintf("manager live set %v, nodes whose last delivered event is a start %v", live, ev))
+	}
 
 	// (1) state clauses, w.r.t. the manager's own live set, on every shard the manager knows.
 	nOn, nOff := 0, 0
